@@ -39,6 +39,8 @@ THEOREMS = [
     "C19.split_legacy",
     "C19.checker_expected",
     "C19.checker_exact",
+    "C19.compiled_needs_no_source",
+    "C19.load_prefers_source",
 ]
 PARTIAL = {}
 TRUSTED = [
@@ -52,7 +54,13 @@ RULE = (
     "forms .py/.pyc/.pyo/__pycache__ entries/.txt, __init__, __init__-prefixed, .#lock, plain files, file and directory "
     "symlinks; 0-3 version locations (overlapping/ancestor/descendant/alias/missing/default); every tree is run under all "
     "four (sourceless, recursive) settings with a random version_path_separator; a case is non-trivial when at least one "
-    "file is listed; distinct by (settings, listed names, loaded ids, warnings)"
+    "file is listed; distinct by (settings, listed names, loaded ids, warnings).  The configuration reaches from_config either "
+    "programmatically (Config() + set_main_option) or through a real alembic.ini (default or other section, %(here)s, multi-line "
+    "values, [post_write_hooks], truncate_slug_length); locations are written absolute, relative to the working directory, with a "
+    "trailing slash, or as package resources 'pkg:dir'; false settings are spelled 'false' or left out; version_locations may be "
+    "the empty string; prepend_sys_path in every separator spelling.  One setting per tree also runs Script._from_path on every "
+    "file of the tree.  Deterministic batteries: prepend_sys_path x helper import, load_python_file/pyc_file_from_path over all "
+    "16 presence combinations of (source, __pycache__, .pyc, .pyo), configurations that must be refused loudly"
 )
 ASSUMPTIONS = [
     "file and directory names contain no newline; no dangling symlinks; no sub-directories inside __pycache__; no file named like '.py'/'..pyc' (only leading dots before the suffix: os.path.splitext finds no extension and load_python_file asserts)",
@@ -143,7 +151,12 @@ def gen_split_case(rng):
 
 
 def impl_split(script_dir, sep, s):
-    cfg = F.make_config(script_dir, version_locations=s, sep=sep)
+    cfg = F.Config()
+    cfg.set_main_option("script_location", script_dir)
+    if s is not None:
+        cfg.set_main_option("version_locations", s)
+    if sep is not None:
+        cfg.set_main_option("version_path_separator", sep)
     try:
         sd = ScriptDirectory.from_config(cfg)
     except ValueError:
@@ -227,43 +240,134 @@ def plan_features(plan):
     return feats
 
 
+def as_setting(x):
+    """settings are dicts; the older tuple form (sourceless, recursive, sep, jseed) is still accepted"""
+    if isinstance(x, dict):
+        return x
+    sl, rec, sep, jseed = x
+    return {"sourceless": sl, "recursive": rec, "sep": sep, "jseed": jseed}
+
+
+def fs_for(fs, st):
+    """revision modules that `import` the helper load only when prepend_sys_path makes <root>/lib importable"""
+    if not any(isinstance(n["content"], dict) and n["content"].get("needs") for n in fs["nodes"]):
+        return fs
+    import re as _re
+    ok = bool(st.get("prepend")) and "{root}/lib" in _re.split(r"[ ,:]+", st["prepend"])
+    nodes = []
+    for n in fs["nodes"]:
+        c = n["content"]
+        if isinstance(c, dict) and c.get("needs"):
+            c = {"rev": c["rev"]} if ok else "broken"
+        nodes.append({**n, "content": c})
+    return {"nodes": nodes, "exists": fs["exists"]}
+
+
 def run_tree(ctx, plan, settings, pending):
-    """settings: list of (sourceless, recursive, sep, joined-string-seed)"""
+    """settings: list of dicts {sourceless, recursive, sep, jseed, delivery, section, here, resource,
+    script_resource, extras, prepend, from_path}"""
+    import random
+
     for ft in plan_features(plan):
         ctx.hist("tree_features", ft)
     ctx.hist("tree_files", min(len(plan["files"]), 20))
     with F.Scratch(plan) as sc:
-        fs = sc.scan()
-        script_dir = os.path.join(sc.root, "scripts")
-        for sourceless, recursive, sep, jseed in settings:
-            inp = {"kind": "tree", "plan": plan, "sourceless": sourceless, "recursive": recursive, "sep": sep, "jseed": jseed}
+        fs0 = sc.scan()
+        for st in map(as_setting, settings):
+            sourceless, recursive, sep = st["sourceless"], st["recursive"], st.get("sep")
+            inp = {"kind": "tree", "plan": plan, "sourceless": sourceless, "recursive": recursive, "sep": sep,
+                   "jseed": st.get("jseed", 0), "st": st}
             vl = None
+            expected = None
             if plan["locations"] is not None:
-                import random
-
-                vl = join_locations(random.Random(jseed), sep, [os.path.join(sc.root, p) for p in plan["locations"]])
-            cfg = F.make_config(script_dir, version_locations=vl, sep=sep if vl is not None else None,
-                                recursive=recursive, sourceless=sourceless)
-            impl = F.run_impl(sc, cfg)
+                strs = F.location_strings(sc, plan, st)
+                vl = join_locations(random.Random(st.get("jseed", 0)), sep, [x for x, _ in strs])
+                expected = {"strings": [x.replace("%(here)s", sc.root) for x, _ in strs], "paths": [p for _, p in strs]}
+            else:
+                expected = {"strings": None, "paths": [os.path.join(sc.root, "scripts", "versions")]}
+            cfg = F.make_config(sc, plan, st, vl)
+            impl = F.run_impl(sc, cfg, st)
+            impl["expected_locations"] = expected
+            if "config_err" in impl:
+                ctx.evaluation()
+                ctx.fail(inp, "config: from_config refuses a valid configuration: %s" % impl["config_err"], impl=impl, tags=["config"])
+                continue
+            # the listed locations are the ones used (the property's splitting clause, judged on the implementation)
+            if (impl["version_locations"] or None) != expected["strings"] or impl["resolved"] != expected["paths"]:
+                ctx.evaluation()
+                ctx.fail(inp, "split: configured locations %r (separator %r, option %r) are used as %r / %r" % (
+                    expected["strings"], sep, impl["vl_option"], impl["version_locations"], impl["resolved"]),
+                    impl={"version_locations": impl["version_locations"], "resolved": impl["resolved"]}, tags=["split"])
+                if any(not os.path.realpath(p).startswith(sc.root + os.sep) for p in impl["resolved"]):
+                    continue  # resolved outside the scratch tree: nothing to hand to the model
             # the locations as the implementation resolved them
-            locs = [sc.scan_location(p) for p in impl["resolved"]]
-            split_op = {"op": "files.split", "sep": sep if vl is not None else None, "pathsep": os.pathsep, "s": vl}
-            base = {"fs": fs, "cfg": {"sourceless": sourceless, "recursive": recursive}, "locs": locs}
+            try:
+                locs = [sc.scan_location(p) for p in impl["resolved"]]
+            except RuntimeError:
+                continue
+            # the option string as the Config hands it to from_config (after ConfigParser, for ini delivery)
+            split_op = {"op": "files.split", "sep": sep if vl is not None else None, "pathsep": os.pathsep, "s": impl["vl_option"]}
+            base = {"fs": fs_for(fs0, st), "cfg": {"sourceless": sourceless, "recursive": recursive}, "locs": locs}
             names = {i: n["path"] for i, n in enumerate(sc.nodes)}
             pending.append((inp, impl, split_op, base, names, sc.root))
 
 
 def flush(ctx, pending):
     ops = []
+    index = []
     for inp, impl, split_op, base, names, root in pending:
+        pos = {"split": len(ops)}
         ops.append(split_op)
+        pos["load"] = len(ops)
         ops.append({"op": "files.load", **base})
         simpl = {"err": True} if "err" in impl else {"loaded": impl["loaded"], "keys": impl["keys"], "dupWarn": impl["dupWarn"]}
+        pos["spec"] = len(ops)
         ops.append({"op": "files.spec", **base, "impl": simpl})
+        if "from_path" in impl:
+            pos["from"] = len(ops)
+            ops.append({"op": "files.fromPath", "fs": base["fs"], "cfg": base["cfg"], "nodes": list(range(len(names)))})
+        if impl.get("prepend_option"):
+            pos["prep"] = len(ops)
+            ops.append({"op": "files.prepend", "s": impl["prepend_option"]})
+        index.append(pos)
     ans = ctx.drv.ask(ops)
     for k, (inp, impl, split_op, base, names, root) in enumerate(pending):
-        msplit, mload, spec = ans[3 * k], ans[3 * k + 1], ans[3 * k + 2]
+        pos = index[k]
+        msplit, mload, spec = ans[pos["split"]], ans[pos["load"]], ans[pos["spec"]]
+        mfrom = ans[pos["from"]] if "from" in pos else {}
+        mprep = ans[pos["prep"]] if "prep" in pos else {}
         ctx.evaluation()
+        st = inp.get("st", {})
+        ctx.hist("config_delivery", "%s%s%s%s" % (st.get("delivery", "api"), "+other-section" if st.get("section") not in (None, "alembic") else "",
+                                                  "+%(here)s" if st.get("here") and st.get("delivery") == "ini" else "",
+                                                  "+package-resource" if st.get("resource") and inp["sep"] not in (":", "os") else ""))
+        for flag, label in (("relative", "relative paths (cwd)"), ("slash", "trailing slash"), ("omit_false", "false settings left out"),
+                            ("script_resource", "script_location as package resource"), ("extras", "truncate_slug_length + [post_write_hooks]")):
+            if st.get(flag):
+                ctx.hist("config_variants", label)
+        if inp["plan"]["locations"] is None and st.get("empty_option"):
+            ctx.hist("config_variants", "version_locations = '' (empty)")
+        # ---- Script._from_path on every file: model = fromFilename ------------------------------
+        if "from_path" in impl:
+            ctx.hist("from_path_files", min(len(names), 20))
+            for i, (got, want) in enumerate(zip(impl["from_path"], mfrom.get("spec") or [])):
+                g = got if got is None or got[0] == "ok" else ["err"]
+                if g != want:
+                    ctx.fail(inp, "frompath: Script._from_path(%s) gives %r, the file taken alone is %r" % (names[i], got, want),
+                             impl=got, tags=["frompath"])
+                    break
+            if mfrom.get("results") != impl["from_path"]:
+                bad = [(names[i], a, b) for i, (a, b) in enumerate(zip(impl["from_path"], mfrom.get("results") or [])) if a != b]
+                ctx.disagree("files.fromPath", inp, bad[:5], None, note="Script._from_path vs fromFilename")
+        # ---- prepend_sys_path: what from_config put in front of sys.path ------------------------------
+        if impl.get("prepend_option"):
+            ctx.hist("prepend_sys_path", "set")
+            if impl["sys_path_new"] != mprep.get("entries"):
+                ctx.disagree("files.prepend", inp, impl["sys_path_new"], mprep)
+            want = [x for x in __import__("re").split(r"[ ,:]+", st["prepend"].replace("{root}", root)) if x]
+            if [x for x in (impl["sys_path_new"] or []) if x] != want:
+                ctx.fail(inp, "prepend: prepend_sys_path %r puts %r in front of sys.path, listed %r" % (impl["prepend_option"], impl["sys_path_new"], want),
+                         impl=impl["sys_path_new"], tags=["prepend"])
         small = {"sourceless": inp["sourceless"], "recursive": inp["recursive"], "sep": inp["sep"], "locations": inp["plan"]["locations"]}
         # ---- model vs implementation ------------------------------------------------
         impl_vl = impl["version_locations"] or None
@@ -341,9 +445,32 @@ def flush(ctx, pending):
 
 def gen_settings(rng):
     out = []
-    for sl in (False, True):
-        for rec in (False, True):
-            out.append((sl, rec, rng.choice(SEPS), rng.randrange(1 << 30)))
+    fp = rng.randrange(4)  # one of the four settings of each tree also runs Script._from_path on every file
+    for i, (sl, rec) in enumerate(((False, False), (False, True), (True, False), (True, True))):
+        st = {"sourceless": sl, "recursive": rec, "sep": rng.choice(SEPS), "jseed": rng.randrange(1 << 30)}
+        r = rng.random()
+        if r < 0.45:
+            st["delivery"] = "ini"
+            st["section"] = "other" if rng.random() < 0.25 else "alembic"
+            st["here"] = rng.random() < 0.6
+            st["extras"] = rng.random() < 0.4
+        if rng.random() < 0.2:
+            st["relative"] = True
+        if rng.random() < 0.2:
+            st["slash"] = True
+        if rng.random() < 0.3:
+            st["omit_false"] = True
+        if rng.random() < 0.4:
+            st["empty_option"] = True
+        if rng.random() < 0.2:
+            st["resource"] = True
+        if rng.random() < 0.1:
+            st["script_resource"] = True
+        if rng.random() < 0.15:
+            st["prepend"] = rng.choice(["{root}/lib9", "{root}/lib8 {root}/lib9", "{root}/lib8:{root}/lib9", "{root}/lib8, {root}/lib9", "{root}/lib8,{root}/lib9"])
+        if i == fp:
+            st["from_path"] = True
+        out.append(st)
     return out
 
 
@@ -399,11 +526,180 @@ def stream_forms(ctx):
     ctx.exhaustive = True
 
 
+def stream_prepend(ctx, n):
+    """`_split_on_space_comma_colon` (prepend_sys_path) vs the model, on strings"""
+    rng = ctx.rng("prepend")
+    cases = ["".join(rng.choice(list("ab/._-") + [" ", " ", ",", ":", ";"]) for _ in range(rng.randint(1, 9))) for _ in range(n)]
+    ans = ctx.drv.ask([{"op": "files.prepend", "s": c} for c in cases])
+    for c, m in zip(cases, ans):
+        impl = F.REGEXES["prepend"].split(c)
+        ctx.evaluation()
+        if m.get("entries") != impl:
+            ctx.disagree("files.prepend", {"s": c}, impl, m)
+        else:
+            ctx.trace_ok()
+
+
+def stream_prepend_trees(ctx):
+    """Deterministic battery: a revision module that imports a helper which only `prepend_sys_path` makes importable;
+    every spelling of the option x api/ini delivery.  Without the option the load must fail loudly."""
+    plan = {"dirs": ["scripts", "va", "lib", "lib2"],
+            "files": [{"path": "va/a1.py", "kind": "src", "content": {"rev": "p1", "needs": True}},
+                      {"path": "va/b2.py", "kind": "src", "content": {"rev": "p2"}},
+                      {"path": "va/c3.pyc", "kind": "pyc", "content": {"rev": "p3", "needs": True}},
+                      {"path": "lib/helper.py", "kind": "helper", "content": None}],
+            "links": [], "locations": ["va"]}
+    settings = []
+    for prepend in (None, "{root}/lib", "{root}/lib2 {root}/lib", "{root}/lib2:{root}/lib", "{root}/lib2, {root}/lib",
+                    "{root}/lib2,{root}/lib", "{root}/lib2"):
+        for delivery in ("api", "ini"):
+            for sl in (False, True):
+                settings.append({"sourceless": sl, "recursive": False, "sep": "os", "jseed": 0, "delivery": delivery,
+                                 "here": True, "prepend": prepend})
+    pending = []
+    run_tree(ctx, plan, settings, pending)
+    for inp, impl, *_ in pending:
+        ok = inp["st"]["prepend"] is not None and inp["st"]["prepend"].endswith("/lib")
+        ctx.hist("prepend_battery", "helper importable" if ok else "helper not importable")
+        if ok != ("err" not in impl):
+            ctx.fail(inp, "prepend: prepend_sys_path=%r: load %s" % (inp["st"]["prepend"], impl.get("exc", "succeeded")), impl=impl.get("exc"), tags=["prepend"])
+    flush(ctx, pending)
+
+
+def stream_loadfile(ctx):
+    """Deterministic battery for alembic.util.pyfiles.load_python_file / pyc_file_from_path: every combination of
+    (source, __pycache__ entry, legacy .pyc, .pyo) for one module, each form carrying a different marker."""
+    import importlib.util
+    from alembic.util import pyfiles
+
+    plan_files = []
+    combos = []
+    for mask in range(16):
+        stem = "m%d" % mask
+        have = {"py": bool(mask & 1), "cache": bool(mask & 2), "pyc": bool(mask & 4), "pyo": bool(mask & 8)}
+        combos.append((stem, have))
+        if have["py"]:
+            plan_files.append({"path": "va/%s.py" % stem, "kind": "src", "content": {"rev": "self"}})
+        if have["cache"]:
+            plan_files.append({"path": "va/__pycache__/%s.%s.pyc" % (stem, F.TAG), "kind": "pyc", "content": {"rev": "cache"}})
+        if have["pyc"]:
+            plan_files.append({"path": "va/%s.pyc" % stem, "kind": "pyc", "content": {"rev": "legacy"}})
+        if have["pyo"]:
+            plan_files.append({"path": "va/%s.pyo" % stem, "kind": "pyc", "content": {"rev": "pyo"}})
+    plan_files.append({"path": "va/notes.txt", "kind": "plain", "content": None})
+    plan = {"dirs": ["scripts", "va"], "files": plan_files, "links": [], "locations": ["va"]}
+    legacy_suffix_pyo = ".pyo" in importlib.machinery.BYTECODE_SUFFIXES
+    queries = []
+    with F.Scratch(plan) as sc:
+        d = os.path.join(sc.root, "va")
+
+        def call(filename):
+            try:
+                return pyfiles.load_python_file(d, filename).revision
+            except ImportError:
+                return "importError"
+            except AssertionError:
+                return "assertFalse"
+
+        for stem, have in combos:
+            legacy = have["pyc"] or (legacy_suffix_pyo and have["pyo"])
+            queries.append((stem + ".py", {"ext": "py", "self": have["py"], "cache": have["cache"], "legacy": legacy}, call(stem + ".py"), have))
+            if have["pyc"]:
+                queries.append((stem + ".pyc", {"ext": "compiled", "self": True, "cache": False, "legacy": False}, call(stem + ".pyc"), have))
+            if have["pyo"] and F.PYO_LOADABLE:
+                queries.append((stem + ".pyo", {"ext": "compiled", "self": True, "cache": False, "legacy": False}, call(stem + ".pyo"), have))
+        queries.append(("notes.txt", {"ext": "other", "self": True, "cache": False, "legacy": False}, call("notes.txt"), {}))
+    ans = ctx.drv.ask([{"op": "files.loadfile", **q} for _, q, _, _ in queries])
+    for (fn, q, got, have), m in zip(queries, ans):
+        ctx.evaluation()
+        ctx.hist("load_python_file", m.get("from"))
+        # markers: the source says "self"; a directly named compiled file is its own marker
+        want = m.get("from")
+        if q["ext"] == "compiled" and want == "self":
+            want = "legacy" if fn.endswith(".pyc") else "pyo"
+        if got != want:
+            ctx.disagree("files.loadfile", {"file": fn, **q}, got, m)
+        else:
+            ctx.trace_ok()
+        if q["ext"] == "py" and have.get("py") and got != "self":
+            ctx.fail({"kind": "loadfile", "file": fn, "have": have}, "loadfile: source %s exists but load_python_file loaded %r" % (fn, got), impl=got, tags=["loadfile"])
+        if q["ext"] == "py" and not have.get("py") and not have.get("cache") and not have.get("pyc") and got not in ("importError",) and not legacy_suffix_pyo:
+            ctx.fail({"kind": "loadfile", "file": fn, "have": have}, "loadfile: nothing loadable for %s but load_python_file gave %r" % (fn, got), impl=got, tags=["loadfile"])
+
+
+def stream_config_errors(ctx):
+    """Deterministic battery: configurations that must be refused loudly (never an empty history)."""
+    from alembic import util as autil
+
+    tmp = tempfile.mkdtemp(prefix="c19e_")
+    try:
+        os.makedirs(os.path.join(tmp, "scripts", "versions"))
+        ini_nosec = os.path.join(tmp, "nosection.ini")
+        with open(ini_nosec, "w") as fh:
+            fh.write("[something_else]\nscript_location = %(here)s/scripts\n")
+        ini_ok = os.path.join(tmp, "ok.ini")
+        with open(ini_ok, "w") as fh:
+            fh.write("[alembic]\nscript_location = %(here)s/scripts\n")
+
+        def c_no_script_location():
+            return F.Config()
+
+        def c_missing_dir():
+            c = F.Config()
+            c.set_main_option("script_location", os.path.join(tmp, "nope"))
+            return c
+
+        def c_missing_resource_dir():
+            c = F.Config()
+            c.set_main_option("script_location", os.path.join(tmp, "scripts", "nope"))
+            return c
+
+        cases = [
+            ("no script_location key", c_no_script_location, autil.CommandError, "script_location"),
+            ("script_location does not exist", c_missing_dir, autil.CommandError, "Path doesn't exist"),
+            ("script_location sub-directory does not exist", c_missing_resource_dir, autil.CommandError, "Path doesn't exist"),
+            ("ini file without the [alembic] section", lambda: F.Config(ini_nosec), autil.CommandError, "section"),
+            ("ini_section not in the file", lambda: F.Config(ini_ok, ini_section="other"), autil.CommandError, "section"),
+            ("ini file does not exist", lambda: F.Config(os.path.join(tmp, "absent.ini")), autil.CommandError, "section"),
+        ]
+        for name, mk, exc, frag in cases:
+            ctx.evaluation()
+            ctx.hist("config_error_battery", name)
+            try:
+                sd = ScriptDirectory.from_config(mk())
+                got = "no error (version_locations=%r)" % (sd.version_locations,)
+            except exc as e:
+                got = None if frag in str(e) else "%s: %s" % (type(e).__name__, e)
+            except Exception as e:
+                got = "%s: %s" % (type(e).__name__, e)
+            if got is None:
+                ctx.trace_ok()
+            else:
+                ctx.fail({"kind": "config", "case": name}, "config: %s: expected %s mentioning %r, got %s" % (name, exc.__name__, frag, got), impl=got, tags=["config"])
+        # a valid ini in the default section loads (and is empty)
+        try:
+            sd = ScriptDirectory.from_config(F.Config(ini_ok))
+            got = [s.revision for s in sd.walk_revisions()]
+        except Exception as e:
+            got = "%s: %s" % (type(e).__name__, e)
+        if got != []:
+            ctx.fail({"kind": "config", "case": "valid ini, empty versions directory"},
+                     "config: a valid ini with %%(here)s and an empty versions directory gives %r instead of an empty history" % (got,), impl=got, tags=["config"])
+    finally:
+        import shutil
+
+        shutil.rmtree(tmp, ignore_errors=True)
+
+
 def run(ctx):
     if F.PYO_LOADABLE:
         ctx.note("this interpreter can load .pyo files; they are modelled with their real content")
     stream_match(ctx, 6000 if ctx.thorough else 1500)
     stream_split(ctx, 6000 if ctx.thorough else 1200)
+    stream_prepend(ctx, 3000 if ctx.thorough else 500)
+    stream_config_errors(ctx)
+    stream_loadfile(ctx)
+    stream_prepend_trees(ctx)
     stream_forms(ctx)
     stream_trees(ctx, 9000 if ctx.thorough else 220)
 
@@ -423,7 +719,7 @@ def classify(failure):
 
 def _run_one(ctx, inp):
     pending = []
-    run_tree(ctx, inp["plan"], [(inp["sourceless"], inp["recursive"], inp.get("sep"), inp.get("jseed", 0))], pending)
+    run_tree(ctx, inp["plan"], [inp.get("st") or (inp["sourceless"], inp["recursive"], inp.get("sep"), inp.get("jseed", 0))], pending)
     case = pending[0]
     inp2, impl, split_op, base, names, root = case
     simpl = {"err": True} if "err" in impl else {"loaded": impl["loaded"], "keys": impl["keys"], "dupWarn": impl["dupWarn"]}
@@ -452,5 +748,26 @@ def replay(ctx, case):
             os.rmdir(tmp)
         m = ctx.drv.ask1({"op": "files.split", "sep": inp["sep"], "pathsep": os.pathsep, "s": inp["s"]})
         return {"impl": impl, "model": m, "listed": inp.get("listed")}
+    if inp.get("kind") in ("config", "loadfile"):
+        sub = Ctx2(ctx)
+        (stream_config_errors if inp["kind"] == "config" else stream_loadfile)(sub)
+        return {"battery": inp["kind"], "failures": sub.failures, "disagreements": sub.disagreements}
     impl, m, s, names = _run_one(ctx, inp)
     return {"files": names, "impl": impl, "model": m, "spec": s}
+
+
+class Ctx2:
+    """collects what a deterministic battery reports when it is re-run for a replay"""
+
+    def __init__(self, ctx):
+        self.drv = ctx.drv
+        self.failures, self.disagreements = [], []
+
+    def fail(self, input, what, impl=None, tags=()):
+        self.failures.append({"input": input, "what": what, "impl": impl})
+
+    def disagree(self, op, input, impl, model, note=""):
+        self.disagreements.append({"op": op, "input": input, "impl": impl, "model": model})
+
+    def __getattr__(self, name):
+        return lambda *a, **k: None
